@@ -26,7 +26,7 @@ RULE = ("one evaluation = one execution of a CLI task with one fault plan (fault
 STATE_MEASURE = "distinct (task, prestate, fault kind, label class, outcome class) tuples"
 PROBES = ["kill_between_last_write_and_rename", "kill_after_rename", "stale_output_survived_crash",
           "stale_temp_present_at_start", "task_raised_on_injected_error", "restart_after_crash_succeeded",
-          "restart_after_crash_failed", "multi_output_partial_rename", "crash_restart_sequence", "task_refuses_prestate"]
+          "restart_after_crash_failed", "multi_output_partial_rename", "crash_restart_sequence", "task_refuses_prestate", "restart_judged"]
 COMPONENTS = {
     "real": ["dclab.cli.* tasks", "dclab.rtdc_dataset.* (writer, export, copier, fmt_hdf5, fmt_tdms)",
              "h5py/HDF5 + hdf5plugin writing real files on tmpfs", "process death (os._exit in a forked grandchild)",
@@ -306,6 +306,9 @@ def select_plans(labels, tier, r, task=None):
             if r.random() < 0.3:
                 seq.append({"at": r.randrange(n), "kind": "kill_before"})
             plans.append(seq)
+        for k in range(0, n, max(1, n // 60)):
+            plans.append([{"at": k, "kind": "err_before"}, {"at": -1, "kind": "none"}])
+            plans.append([{"at": k, "kind": "kill_after"}, {"at": -1, "kind": "none"}])
         return plans, exhaustive
     cap = QUICK_CAP.get(task, 60)
     crucial = [k for k, lab in enumerate(labels) if lab.startswith(CRUCIAL)]
@@ -330,6 +333,10 @@ def select_plans(labels, tier, r, task=None):
         plans.append([{"at": k, "kind": "err_after"}])
     for _ in range(2):
         plans.append([{"at": r.randrange(n), "kind": "kill_before"}, {"at": r.randrange(n), "kind": r.choice(KINDS)}])
+    # a failed or killed run followed by a fault-free restart of the same task (stale temporary files of the first run)
+    for _ in range(max(3, cap // 12)):
+        plans.append([{"at": r.randrange(n), "kind": r.choice(["err_before", "err_after", "err_before", "kill_before"])},
+                      {"at": -1, "kind": "none"}])
     return plans, False
 
 
@@ -429,9 +436,11 @@ def run(trace, ctx):
         crashed_before = False
         for step_i, f in enumerate(seq):
             k, kind = int(f["at"]), f["kind"]
-            st, rep = _grandchild(wl, {k: kind}, report, clock_start)
+            st, rep = _grandchild(wl, ({k: kind} if kind != "none" else {}), report, clock_start)
             ctx.count("evaluations")
-            lab = labels[k] if k < len(labels) else "(beyond end)"
+            lab = (labels[k] if 0 <= k < len(labels) else "(beyond end)") if kind != "none" else "(fault-free restart)"
+            if kind == "none":
+                ctx.probe("restart_judged")
             fired = (st == ("exit", 137)) or bool(rep and rep.get("fired"))
             if rep and rep.get("harness"):
                 raise RuntimeError("grandchild harness failure: " + rep["harness"])
